@@ -1,6 +1,7 @@
 //! unit: u02
 //! properties: C02 C08
 //! note: forward admission arithmetic (fee and CLTV) and the timing lemma over the extracted constants
+//! trusted: R15 (statement slicing): create_recv_pending_htlc_info is ~150 lines over onion payload types; the unit extracts, on every run, its three consecutive acceptance tests (final CLTV vs onion, PaymentClaimBuffer, amount) with their conditions verbatim and checks them as one function of the variables they read; the rest of the function is dropped and not claimed
 //! trusted: env: PaymentConstraints {2 fields} skeleton; BlindedHopFeatures opaque with external_body empty()/requires_unknown_bits_from() (unconstrained)
 //! trusted: env: struct UpdateAddHTLC{amount_msat,cltv_expiry}, ChannelConfig{3 fields}, PaymentRelay{3 fields} are field skeletons of the real structs; enum LocalHTLCFailureReason restricted to the 5 variants used; FundedChannel self stub (R5: the body reads no field of self)
 //! assume: cur_height <= 2^31-1 (block heights)
@@ -144,6 +145,32 @@ impl BlindedHopFeatures {
     inbound_cltv_expiry.checked_sub( payment_relay.cltv_expiry_delta as u32 )
 //@with
     inbound_cltv_expiry.checked_sub( 0 as u32 )
+//@end
+
+// ---- final hop (R15 statement slicing): the three acceptance tests of create_recv_pending_htlc_info, in their order ----
+//@extract lightning/src/ln/onion_payment.rs :: fn create_recv_pending_htlc_info
+//@rw R15
+    fn create_recv_pending_htlc_info($params:any) -> $ret { $pre:any if $c1 { return Err(InboundHTLCErr { msg: $m1, reason: LocalHTLCFailureReason::FinalIncorrectCLTVExpiry, $r1:any }) } if $c2 { return Err(InboundHTLCErr { reason: LocalHTLCFailureReason::PaymentClaimBuffer, $r2:any }); } if $c3 { return Err(InboundHTLCErr { reason: LocalHTLCFailureReason::FinalIncorrectHTLCAmount, $r3:any }); } $post:any }
+//@with
+    fn final_hop_acceptance_tests(onion_cltv_expiry: u32, cltv_expiry: u32, current_height: u32, allow_underpay: bool, onion_amt_msat: u64, amt_msat: u64, counterparty_skimmed_fee_msat: Option<u64>) -> Result<(), u8> {
+        if $c1 { return Err(1); }
+        if $c2 { return Err(2); }
+        if $c3 { return Err(3); }
+        Ok(())
+    }
+//@ret r
+//@requires
+    current_height <= 0x7fff_ffff,
+//@ensures P C08 accepted-final-hop-HTLC-leaves-more-than-the-fail-back-buffer-before-expiry
+    r is Ok ==> cltv_expiry as int > current_height + HTLC_FAIL_BACK_BUFFER + 1 && onion_cltv_expiry <= cltv_expiry,
+    // hence the claim deadline advertised in PaymentClaimable (expiry - HTLC_FAIL_BACK_BUFFER) is still more than one block away
+    r is Ok ==> cltv_expiry as int - HTLC_FAIL_BACK_BUFFER as int > current_height + 1,
+    r is Ok ==> (if allow_underpay { onion_amt_msat as int <= amt_msat as int + (if counterparty_skimmed_fee_msat is Some { counterparty_skimmed_fee_msat->Some_0 as int } else { 0 }) || amt_msat as int + (if counterparty_skimmed_fee_msat is Some { counterparty_skimmed_fee_msat->Some_0 as int } else { 0 }) > u64::MAX }
+                 else { onion_amt_msat <= amt_msat }),
+//@mutant final_hop_buffer_shortened
+    cltv_expiry <= current_height + HTLC_FAIL_BACK_BUFFER + 1
+//@with
+    cltv_expiry <= current_height + 1
 //@end
 }
 fn main() {}
